@@ -334,12 +334,13 @@ class PluginEnv:
             pass
 
         def udb(b):
-            return {'echo': 'echo', 'none': 'none'}.get(b[0]) or ('raises ' + tt(b[1]) if b[0] == 'raises' else 'text ' + tt(b[1]))
+            return {'echo': 'echo', 'none': 'none'}.get(b[0]) or ('raises ' + tt(b[1]) if b[0] in ('raises', 'raises_import') else 'text ' + tt(b[1]))
 
         def srcb(b):
             return b[0] if b[0] in ('echo', 'raises') else 'text ' + tt(b[1])
 
         def cob(b):
+            # ('table_raise', procs, bad): raises for the procedure `bad`, which the model sees as "no description"
             return 'raises' if b[0] == 'raises' else 'table ' + tlist(b[1].items(), lambda kv: tt(kv[0]) + ' ' + tlist(kv[1], tt))
         return 'setenv %d %s %s %s %s' % (
             int(self.allow),
@@ -403,6 +404,8 @@ def fixture_source(pkg, beh):
             body = 'return json.dumps({"subType": sub, "version": ver, "data": bytes(data).hex()})'
         elif beh[0] == 'raises':
             body = 'raise Exception(%r)' % beh[1]
+        elif beh[0] == 'raises_import':
+            body = 'raise ImportError(%r)' % beh[1]
         elif beh[0] == 'none':
             body = 'return None'
         else:
@@ -418,6 +421,8 @@ def fixture_source(pkg, beh):
         return 'import json\ndef parseSRCToJson(refcode, w2, w3, w4, w5, w6, w7, w8, w9):\n    %s\n' % body
     if beh[0] == 'raises':
         return 'def getMaintProcDesc(p):\n    raise Exception("callout plugin failure")\n'
+    if beh[0] == 'table_raise':
+        return 'import json\nPROCS = %r\ndef getMaintProcDesc(p):\n    if p == %r:\n        raise KeyError(p)\n    return json.dumps(PROCS[p]) if p in PROCS else ""\n' % (beh[1], beh[2])
     return 'import json\nPROCS = %r\ndef getMaintProcDesc(p):\n    return json.dumps(PROCS[p]) if p in PROCS else ""\n' % (beh[1],)
 
 
